@@ -277,9 +277,14 @@ func e2eEval(r *core.Run, c *e2eCase) {
 			break
 		}
 		ok := false
-		for w := 0; w < 800 && late < 0; w++ { // generous wait (up to ~8 s); its expiry decides nothing by itself
+		// Generous wait (up to ~2 min while pp is blocked on its input and nothing else can make it emit).
+		// Its expiry alone decides nothing: the verdict comes from what happens after more input is given.
+		for w := 0; w < 12000 && late < 0; w++ {
 			if satisfied(i) {
 				ok = true
+				if w > 800 {
+					r.Count("e2e_slow_but_present", 1)
+				}
 				break
 			}
 			time.Sleep(10 * time.Millisecond)
